@@ -25,13 +25,6 @@ pub fn item_save__PRICES(storage: &mut dyn Storage, key: String, v: &Vec<PriceDa
         r is Ok ==> final(storage).view() == (Store { prices: old(storage).view().prices.insert(key@, v@), ..old(storage).view() }),
         r is Err ==> final(storage).view() == old(storage).view(),
 { unimplemented!() }
-// `v.last().unwrap()` (slice::last through Deref; abort on empty)
-#[verifier::external_body]
-pub fn vec_last<'a>(v: &'a Vec<PriceData>) -> (r: &'a PriceData)
-    ensures v@.len() > 0, *r == v@[v@.len() - 1],
-{ unimplemented!() }
-#[verifier::external_body]
-pub fn string_clone(s: &String) -> (r: String) ensures r@ == s@, { unimplemented!() }
 
 pub struct Admin {}
 pub struct AdminError { pub _e: Ghost<int> }
